@@ -217,6 +217,7 @@ pub fn profile_for(prop: &str, cancelable: bool, rng: &mut Rng) -> Profile {
         }
         "C17" => {
             w.lcstart = 10;
+            w.lc_collect_open = 12;
             w.pushset = 12;
             w.torecords = 6;
             w.lenter = 18;
@@ -231,8 +232,9 @@ pub fn profile_for(prop: &str, cancelable: bool, rng: &mut Rng) -> Profile {
             w.elapsed = 5;
             w.lenter = 16;
             w.laddevent = 8;
-            w.lcstart = 3;
-            w.pushset = 3;
+            w.lcstart = 6;
+            w.lc_collect_open = 14;
+            w.pushset = 6;
             pf.sleep_us = (50, 3000);
             pf.ops = (8, 40);
         }
